@@ -276,6 +276,22 @@ C17 += [
      "    dsk_optimized = optimize_task_graph_for_dask_distributed(client, dsk)\n    futures = client.get(dsk_optimized, 'results', sync=False)", None),
 ]
 
+C17 += [
+    ('tool-results-not-stored-in-context', EXE,
+     "        context.store_results(res)\n",
+     "        pass\n", 'C17/results-object'),
+    ('results-of-the-workflow-replaced-by-stored-copy', EXE,
+     "    if isinstance(res, Results) and not isinstance(res, ModelfitResults):\n        context.store_results(res)",
+     "    if isinstance(res, Results) and not isinstance(res, ModelfitResults):\n        context.store_results(res)\n        res = None", 'C17/results-object'),
+    ('dispatcher-end-message-before-get', RUN,
+     "                        try:\n                            res = client.get(dsk_optimized, 'results')",
+     "                        context.log_info(\"End dispatch\")\n                        try:\n                            res = client.get(dsk_optimized, 'results')",
+     'C17/context-log'),
+    ('context-log-message-quotes-not-doubled', 'pharmpy/workflows/contexts/local_directory.py',
+     """return '"' + message.replace('"', '""') + '"'""",
+     """return '"' + message + '"'""", 'C17/context-log'),
+]
+
 ALL = {'C15': [_norm(m) for m in C15 if m[0] not in EQUIVALENT],
        'C16': [_norm(m) for m in C16 if m[0] not in EQUIVALENT],
        'C17': [_norm(m) for m in C17]}
